@@ -64,6 +64,7 @@ THEOREMS = ["OllamaVerif.C18." + t for t in (
     # the laws relativised to the NaN-free part of the carrier + instance on the carrier WITH NaN
     "greedy_argmax_on", "greedy_admissible_on", "sample_in_topk_on", "sample_fixed_no_allNegInf_on",
     "every_call_admissible_on", "X_not_OrdLaws", "xLawsOn", "xBeqLawOn", "Sample_totalize_greedy",
+    "sample_admissible_fixed_on", "xArithLawsOn",
     "deterministic", "hist_nth", "Sample_indep_r", "stream_of_seed", "grammar_step_spec",
     "grammar_retry_admissible_partial", "grammar_retry_admissible_fixed_partial", "grammar_retry_greedy",
     "masked_not_neginf_accepted", "maskLogits_get", "F18_nan_instead_of_token", "F18_guard_fails",
@@ -75,6 +76,8 @@ THEOREMS = ["OllamaVerif.C18." + t for t in (
     "OllamaVerif.Sampler.topKHeap_isTopK", "OllamaVerif.Sampler.topK_isTopK_all",
     "OllamaVerif.Sampler.totalize_laws", "OllamaVerif.Sampler.totalize_beqLaw", "OllamaVerif.Sampler.topK_totalize",
     "OllamaVerif.Sampler.greedy_totalize", "OllamaVerif.Sampler.topK_isTopK_on",
+    "OllamaVerif.Sampler.runGood_stages", "OllamaVerif.Sampler.afterTopK_totalize", "OllamaVerif.Sampler.totalize_addZero",
+    "OllamaVerif.Sampler.afterTopK_spec_fix_on",
     # Tie 1: call-site wiring (go/ast) and the variant the tree implements (probe)
     "OllamaVerif.Tie.C18.callsites_wired", "OllamaVerif.Tie.C18.tree_request_sampler",
     "OllamaVerif.Tie.C18.tree_is_fixed", "OllamaVerif.Tie.C18.treeSample_eq", "OllamaVerif.Tie.C18.tree_no_spurious_allNegInf",
@@ -162,6 +165,14 @@ def regenerate_callsites(ctx):
             rows.append("(%s, [%s], %s, %s)" % (q(m.group(1)), ", ".join(q(a) for a in args), m.group(3), q(m.group(4))))
             sites.append(m.group(0))
     ctx.coverage["newsampler_call_sites"] = sites if p.returncode == 0 else ["extractor failed: " + p.stdout[-300:]]
+    # the same fact Tie.C18.callsites_wired decides, said in words
+    want = "args=Temperature,TopK,TopP,MinP,Seed nargs=6 owner=local"
+    bad = [x for x in sites if not x.endswith(want)]
+    if p.returncode != 0 or not sites or bad:
+        ctx.violation("tie-callsite-wiring", (bad or ["<no call site of sample.NewSampler found>"])[0],
+                      "a production call of sample.NewSampler does not pass (Temperature, TopK, TopP, MinP, Seed, grammar) "
+                      "in role order into a sampler owned by the request handler (Tie.C18.callsites_wired fails): "
+                      + ("; ".join(bad) if bad else p.stdout[-300:]), no_input=True)
     body = ("-- REGENERATED on every run by vlib/checks/c18.py (harness/cmd/c18facts, go/ast) from the tree under test. Do not edit.\n"
             "namespace OllamaVerif.Generated.C18\n"
             "/-- every `sample.NewSampler(...)` call outside tests: (file:func, option field carried by argument 1..5,\n"
@@ -180,6 +191,11 @@ def regenerate_variant(ctx, outdir):
     except OSError:
         pass
     ctx.coverage["variant_probed"] = probed
+    if probed != 3:
+        ctx.violation("tie-variant", "temperature 1, logits [+Inf, 0]  /  temperature 0, logits [-Inf, -Inf]",
+                      "the tree does not implement the repaired variant (probe = %r; bit 1 = max-shift F18, bit 2 = greedy "
+                      "all -Inf error F18c): Tie.C18.tree_is_fixed fails and the fix = true theorems no longer speak about "
+                      "this tree" % (probed,), no_input=(probed is None))
     b = lambda x: "true" if x else "false"
     body = ("-- REGENERATED on every run by vlib/checks/c18.py from the driver's probe of the tree under test (c18ProbeFix). Do not edit.\n"
             "namespace OllamaVerif.Generated.C18\n"
@@ -224,11 +240,11 @@ def run(ctx):
         "IEEE-754 single precision comparison is a strict weak order on non-NaN values (the theorems' carrier law); "
         "the per-run contracts (scale/softmax order preservation, -Inf->0, max->positive, monotone cumulative sums, "
         "r*total<=total) are evaluated on the bit patterns of every sampled run, not proved",
-        "the law-dependent theorems are instantiable on a carrier with NaN only in their `_on` form (relativised laws + "
-        "guard noNaN logits): done for greedy / topK / top-k counting / totality / every call of a history; the "
-        "arithmetic `_partial` theorems (never -Inf, membership in minP(topP(..))) still take the total laws, i.e. they "
-        "speak about runs in which no NaN is ever compared, which the per-run contracts (no NaN among scaled values and "
-        "probabilities) check but the statements do not say",
+        "no carrier with a NaN satisfies the total order laws (X_not_OrdLaws); the statements that apply to IEEE floats are the "
+        "`_on` forms (relativised laws OrdLawsOn / ArithLawsOn / BeqLawOn, instantiated on the witness carrier with NaN and "
+        "+-Inf; guards: noNaN logits for the order-only clauses, the run guard runGood — no NaN is ever compared — for the "
+        "weighted path; both guards are evaluated on every sampled run, flag `nan` of the contract status). That IEEE float32 "
+        "itself satisfies the relativised laws is not proved in Lean (Float32 is opaque)",
         "reproducibility is claimed modulo the order slices.SortFunc (pdqsort) gives tokens with EQUAL logits when more "
         "than 12 candidates are sorted (top-k off): not modelled, compared modulo that order; one Sampler is used by one "
         "goroutine (the runner gives every sequence its own, Tie.C18.callsites_wired)",
